@@ -1187,6 +1187,8 @@ class Interp:
                 return type(base)(r_) if type(base).__name__ == "T" else r_
             if isinstance(base, (list, tuple)):
                 i = int(to_poly(idx).const_value())
+                if not -len(base) <= i < len(base) and type(base).__name__ != "T":
+                    raise _PyRaise("IndexError")  # a python sequence indexed out of range: catchable by the interpreted code
                 return base[i]
             if isinstance(base, dict):
                 try:
@@ -1428,7 +1430,9 @@ class Interp:
                     recv[k] = self.eval(e.args[1]) if len(e.args) > 1 else None
                 return recv[k]
             if isinstance(recv, str) and f.attr in ("split", "lower", "upper", "strip", "startswith", "endswith", "lstrip", "rstrip", "replace", "removeprefix", "removesuffix", "rsplit", "partition", "rpartition", "find", "rfind", "isdigit", "join", "title", "capitalize"):
-                return getattr(recv, f.attr)(*[self.eval(a) for a in e.args])
+                sargs_ = [self.eval(a) for a in e.args]
+                sargs_ = [int(x.const_value()) if isinstance(x, Poly) and x.is_const() and x.const_value().denominator == 1 else x for x in sargs_]  # maxsplit, positions
+                return getattr(recv, f.attr)(*sargs_)
             if isinstance(recv, dict) and f.attr in ("items", "keys", "values"):
                 return [tuple(kv) for kv in recv.items()] if f.attr == "items" else (list(recv.keys()) if f.attr == "keys" else list(recv.values()))
             if isinstance(recv, dict) and f.attr in ("get", "pop", "setdefault"):
